@@ -51,8 +51,14 @@ def gen(rng, n_ops: int) -> dict:
             ops.append({"op": "consume_many", "cs": rng.sample([1, 2, 3, 4], 2), "timeout": 0.0035})
         elif r < 0.80:
             ops.append({"op": "terminal"})
-        elif r < 0.84:
+        elif r < 0.82:
             ops.append({"op": "finish", "c": rng.choice([1, 2, 3, 4])})
+        elif r < 0.86:
+            # a consumer is waiting inside consume() when another one is finished a few milliseconds later and returns
+            # what it held - possibly expired by then: the waiting consumer's next poll must look at the clock again
+            c_ = rng.choice([1, 2])
+            ops.append({"op": "consume_with_finish", "c": c_, "f": 3 - c_, "k": rng.choice([0, 1, 2]),
+                        "after": rng.choice([0.0015, 0.0035, 0.0065]), "timeout": 0.0105})
         else:
             ops.append({"op": "tick", "d": rng.choice([1, 499, 999, 1000, 1001, 4000, 5000, 20_000, S])})
     return {"queues": queues, "consumers": consumers, "ops": ops, "known": known,
